@@ -62,13 +62,20 @@ def make_config(seed, tier="quick"):
         per = max(0.3, r.uniform(0.2, 0.9) * hb)
         t = r.uniform(0, per)
         k = 0
+        ids = random.Random(seed ^ 0xC121D).choice(["unique", "unique", "const", "coarse", "numeric"])
         while t < span:
             k += 1
-            plan.append((round(t, 3), "testreq", f"PQ{k}"))
+            rid = {"unique": f"PQ{k}", "const": "TEST", "coarse": f"T{k // 3}", "numeric": str(1700000000 + k // 2)}[ids]
+            plan.append((round(t, 3), "testreq", rid))
             t += per
     if r.random() < 0.15 and law not in ("answer_wrong",):
         # an unsolicited Heartbeat carrying a TestReqID nobody asked for, while nothing is outstanding
         plan.append((round(r.uniform(0, 0.5) * hb, 3), "hb_id", "777"))
+    rq = random.Random(seed ^ 0xC1277)
+    if rq.random() < 0.15:
+        # the peer asks for a resend of an empty / invalid range (nothing to replay): ordinary valid traffic as far
+        # as the watchdog is concerned, and the session has to be watched exactly as before afterwards
+        plan.append((round(rq.uniform(0, 0.6) * span, 3), "peer_rr", rq.choice(["beyond", "zero", "inverted", "all"])))
     if r.random() < 0.2:
         # the application itself asks for a TestRequest now and then (public send_test_req)
         for _ in range(r.randint(1, 2)):
@@ -234,6 +241,10 @@ class WatchdogSim(PeerSim):
             p.send("D", [("11", f"P-{self.app_id}"), ("55", "ES"), ("54", "1"), ("38", "1"), ("44", "1")], spec={"plan": "app"})
         elif kind == "testreq":
             p.send("1", [("112", arg)], spec={"plan": "testreq", "id": arg})
+        elif kind == "peer_rr":
+            nxt = self.live().next_num_out
+            b, e = {"beyond": (nxt + 5, 0), "zero": (0, 0), "inverted": (max(2, nxt - 1), 1), "all": (1, 0)}[arg]
+            p.send("2", [("7", b), ("16", e)], spec={"plan": "peer_rr"})
         elif kind == "app_testreq":
             self.spawn(self.app_testreq("plan"), "app-testreq")
         elif kind == "app_send":
@@ -404,11 +415,16 @@ class WatchdogSim(PeerSim):
         if first_disc is None:
             self.probe("session_survived")
         # O4: every inbound TestRequest answered with a Heartbeat carrying the same id
+        # (each answer serves one request: a peer may well re-use an id, e.g. a constant "TEST")
+        used = set()
         for (ta, typ, aid) in arr:
             if typ == "1" and ta < obs_end - 1e-9:
-                if not any(t2 >= ta - 1e-9 and typ2 == "0" and rid2 == aid for (t2, typ2, rid2, _) in all_tx):
+                hit = next((i for i, (t2, typ2, rid2, _) in enumerate(all_tx)
+                            if i not in used and t2 >= ta - 1e-9 and typ2 == "0" and rid2 == aid), None)
+                if hit is None:
                     raise Violation("testrequest-unanswered", f"C12/inbound-testrequest-unanswered/{ctx}",
-                                    f"TestRequest {aid} received at +{rel(ta)}s got no Heartbeat with that TestReqID")
+                                    f"TestRequest {aid} received at +{rel(ta)}s got no Heartbeat (of its own) with that TestReqID")
+                used.add(hit)
                 self.probe("inbound_testrequest_answered")
 
     def abstract_state(self):
